@@ -20,12 +20,15 @@ pub fn dispatch(op: &str, a: &[Arg]) -> Option<String> {
     Some(match op {
         // text <flag> x<raw>: raw used as entry name, entry comment and (undecoded) archive comment
         "text" => {
-            let flag = a[0].n() != 0;
+            // first argument: bit 0 = the UTF-8 flag; the remaining bits (>> 1) are OR-ed into the general purpose flags
+            // (reserved / unrelated bits a foreign producer may set)
+            let flag = a[0].n() & 1 != 0;
+            let other = (a[0].n() >> 1) as u16;
             let raw = a[1].b().to_vec();
             let e = E {
                 name: raw.clone(),
                 comment: raw.clone(),
-                flags: if flag { 1 << 11 } else { 0 },
+                flags: (if flag { 1 << 11 } else { 0 }) | other,
                 made_by: (3 << 8) | 20,
                 ..Default::default()
             };
